@@ -1110,6 +1110,151 @@ def tr_measure_depth(tree):
 # ------------------------------------------------------------------------------------------------------------------
 # the rate check as a CONCURRENT program: which statements touch the shared window, and where the lock is taken
 # ------------------------------------------------------------------------------------------------------------------
+def tr_matches(tree, clsname, lean_name):
+    """`ThreatSignature.matches` / `TLRPattern.matches` (+ the `__post_init__` that compiles the pattern), recognised by
+    ROLE and emitted in ONE canonical form:
+
+        if s.isRegex then env.rx s.pat content else isInfix (lowerS env s.pat) (lowerS env content)
+
+    Accepted: the guard is a conjunction of `self.is_regex` and the truthiness / `is not None` of `self._compiled`
+    (`__post_init__` must set `_compiled = re.compile(self.pattern, <IGNORECASE only>)` exactly when `is_regex`);
+    the regex value is `self._compiled.search(content)` seen through `bool(..)`, `.. is not None`, `True if .. else
+    False`; the substring value is `<fold>(self.pattern) in <fold>(content)` with `casefold` (full case folding, what
+    `Env.lower` stands for); early return or if/else or one conditional expression; single-assignment locals.
+    Anything else (`match` / `fullmatch`, a slice or other transformation of the content, `lower()`, another flag,
+    a length guard ...) leaves the subset."""
+    cls = find_class(tree, clsname)
+    fn = find_fn(cls, "matches")
+    post = find_fn(cls, "__post_init__")
+    params = [a.arg for a in fn.args.args]
+    if len(params) != 2:
+        bad(fn, "matches takes (self, content)")
+    cname = params[1]
+    import copy
+    defs = single_defs(fn)
+
+    def expand(e):
+        for _ in range(4):
+            e = Subst(defs).visit(copy.deepcopy(e))
+        return e
+
+    def is_compiled(n):
+        return is_self(n, "_compiled")
+
+    def guard_terms(n):
+        n = expand(n)
+        if isinstance(n, ast.BoolOp) and isinstance(n.op, ast.And):
+            return [t for v in n.values for t in guard_terms(v)]
+        if is_self(n, "is_regex"):
+            return ["regex"]
+        if is_compiled(n):
+            return ["compiled"]
+        if isinstance(n, ast.Compare) and len(n.ops) == 1 and isinstance(n.ops[0], ast.IsNot) and is_compiled(n.left) \
+                and isinstance(n.comparators[0], ast.Constant) and n.comparators[0].value is None:
+            return ["compiled"]
+        bad(n, "guard of matches is not `self.is_regex and self._compiled`")
+
+    def regex_value(n):
+        n = expand(n)
+        if isinstance(n, ast.Call) and isinstance(n.func, ast.Name) and n.func.id == "bool" and len(n.args) == 1:
+            return regex_value_raw(n.args[0])
+        if isinstance(n, ast.Compare) and len(n.ops) == 1 and isinstance(n.ops[0], ast.IsNot) \
+                and isinstance(n.comparators[0], ast.Constant) and n.comparators[0].value is None:
+            return regex_value_raw(n.left)
+        if isinstance(n, ast.IfExp) and isinstance(n.body, ast.Constant) and n.body.value is True \
+                and isinstance(n.orelse, ast.Constant) and n.orelse.value is False:
+            return regex_value_raw(n.test)
+        bad(n, "regex branch of matches is not the truth value of a search")
+
+    def regex_value_raw(n):
+        n = expand(n)
+        if isinstance(n, ast.Call) and isinstance(n.func, ast.Attribute) and is_compiled(n.func.value) \
+                and not n.keywords and len(n.args) == 1 and isinstance(n.args[0], ast.Name) and n.args[0].id == cname:
+            if n.func.attr != "search":
+                bad(n, f"regex branch calls .{n.func.attr}(), not .search()")
+            return "env.rx s.pat content"
+        bad(n, "regex branch does not search the whole content with the compiled pattern")
+
+    def folded(n, what):
+        n = expand(n)
+        if isinstance(n, ast.Call) and isinstance(n.func, ast.Attribute) and not n.args and not n.keywords:
+            if n.func.attr != "casefold":
+                bad(n, f"substring branch folds with .{n.func.attr}() (only casefold is code-point-wise)")
+            inner = n.func.value
+            if what == "pattern" and is_self(inner, "pattern"):
+                return "lowerS env s.pat"
+            if what == "content" and isinstance(inner, ast.Name) and inner.id == cname:
+                return "lowerS env content"
+        bad(n, f"substring branch: {what} is not folded with casefold()")
+
+    def sub_value(n):
+        n = expand(n)
+        if isinstance(n, ast.Compare) and len(n.ops) == 1 and isinstance(n.ops[0], ast.In):
+            return f"isInfix ({folded(n.left, 'pattern')}) ({folded(n.comparators[0], 'content')})"
+        bad(n, "substring branch is not `<pattern> in <content>`")
+
+    # __post_init__: `_compiled` is set, with IGNORECASE only, exactly when is_regex
+    pbody = [st for st in post.body if not is_docstring(st) and not is_print(st)]
+    if len(pbody) != 1 or not isinstance(pbody[0], ast.If) or pbody[0].orelse or not is_self(pbody[0].test, "is_regex") \
+            or len(pbody[0].body) != 1:
+        bad(post, "__post_init__ is not `if self.is_regex: self._compiled = re.compile(...)`")
+    asg = pbody[0].body[0]
+    if not (isinstance(asg, ast.Assign) and len(asg.targets) == 1 and is_compiled(asg.targets[0])
+            and isinstance(asg.value, ast.Call) and ast.unparse(asg.value.func) in ("re.compile", "compile")):
+        bad(asg, "__post_init__ does not assign re.compile(...) to _compiled")
+    cargs = kwargs_of(asg.value, ["pattern", "flags"])
+    if set(cargs) != {"pattern", "flags"} or not is_self(cargs["pattern"], "pattern"):
+        bad(asg, "re.compile is not called with (self.pattern, <flags>)")
+    import re as _re
+    try:
+        fl = int(eval(compile(ast.Expression(cargs["flags"]), "<flags>", "eval"), {"re": _re, "__builtins__": {}}))
+    except Exception:
+        bad(asg, "compile flags are not a constant expression over re.*")
+    if fl != int(_re.IGNORECASE):
+        bad(asg, f"compile flags are {fl}, not re.IGNORECASE")
+
+    def block(stmts, env):
+        """decision tree of a statement list: ('ret', expr) | ('if', test, then, else); locals substituted"""
+        for i, st in enumerate(stmts):
+            if is_docstring(st) or is_print(st):
+                continue
+            if isinstance(st, ast.Assign) and len(st.targets) == 1 and isinstance(st.targets[0], ast.Name):
+                env = {**env, st.targets[0].id: Subst(env).visit(copy.deepcopy(st.value))}
+                continue
+            if isinstance(st, ast.AnnAssign) and isinstance(st.target, ast.Name) and st.value is not None:
+                env = {**env, st.target.id: Subst(env).visit(copy.deepcopy(st.value))}
+                continue
+            if isinstance(st, ast.Return) and st.value is not None:
+                v = Subst(env).visit(copy.deepcopy(st.value))
+                if isinstance(v, ast.IfExp) and not (isinstance(v.body, ast.Constant) and v.body.value is True
+                                                     and isinstance(v.orelse, ast.Constant) and v.orelse.value is False):
+                    return ("if", v.test, ("ret", v.body), ("ret", v.orelse))
+                return ("ret", v)
+            if isinstance(st, ast.If):
+                t = block(st.body, env)
+                if t is None:
+                    bad(st, "a branch of matches does not return")
+                e = block(list(st.orelse) + list(stmts[i + 1:]), env)
+                if e is None:
+                    bad(st, "matches can fall off its end")
+                return ("if", Subst(env).visit(copy.deepcopy(st.test)), t, e)
+            bad(st, f"statement {type(st).__name__} in matches")
+        return None
+    defs = {}
+    tree_ = block(fn.body, {})
+    if not (tree_ and tree_[0] == "if" and tree_[2][0] == "ret" and tree_[3][0] == "ret"):
+        bad(fn, "matches is not `if <guard>: return <regex> ; return <substring>`")
+    guard, rxv, subv = tree_[1], tree_[2][1], tree_[3][1]
+    terms = guard_terms(guard)
+    if not terms:
+        bad(guard, "empty guard")
+    r, sv = regex_value(rxv), sub_value(subv)
+    return (f"/-- translation of `{clsname}.matches` (with the `__post_init__` that compiles the pattern: IGNORECASE only,\n"
+            f"    exactly when `is_regex`) -/\n"
+            f"def Tr.{lean_name} (env : Env) (s : Sig) (content : Str) : Bool :=\n"
+            f"  if s.isRegex then {r} else {sv}\n")
+
+
 def rate_program(tree):
     """`_check_rate_limit` (found through the call graph from `filter`: the self-method that touches
     `self._request_times`; helpers it calls inlined) as the instruction list of Operon/Model/RateConc.lean:
@@ -1260,6 +1405,8 @@ SIGS = {
     "lengthValidate": "def Tr.lengthValidate (mn mx : Nat) (content : Str) : Out Bool :=",
     "charsetValidate": "def Tr.charsetValidate (allowCtl allowNull : Bool) (content : Str) : Out Bool :=",
     "jsonValidate": "def Tr.jsonValidate (env : Env) (md ms : Nat) (content : Str) : Out Bool :=",
+    "memMatches": "def Tr.memMatches (env : Env) (s : Sig) (content : Str) : Bool :=",
+    "innMatches": "def Tr.innMatches (env : Env) (s : Sig) (content : Str) : Bool :=",
 }
 INNATE_FALLBACK = [
     "def Tr.innateAllow (maxSev thr nErr lvl : Nat) : Bool :=",
@@ -1385,6 +1532,16 @@ def generate(repo: Path, membrane_mod=None, innate_mod=None):
     attempt("jsonValidate", lambda: tr_validator(itree, "JSONValidator", "jsonValidate", "(env : Env) (md ms : Nat)",
                                                  {"content": ("content", "str"), "self.max_depth": ("md", "nat"),
                                                   "self.max_size": ("ms", "nat")}), "")
+    for key, tr_, cls_ in (("memMatches", mtree, "ThreatSignature"), ("innMatches", itree, "TLRPattern")):
+        MODULE_CONSTS.clear()
+        try:
+            if tr_ is None:
+                raise Unsupported("source does not parse")
+            parts.append(tr_matches(tr_, cls_, key))
+        except Exception as e:  # noqa  (fail closed)
+            info["unsupported"][key] = str(e)
+            why = str(e).replace('"', "'")
+            parts.append(f"/-- translation of `{cls_}.matches`: NOT TRANSLATED -/\n{SIGS[key]}\n  untranslatable \"{why}\"\n")
     text = ("import Operon.Model.Membrane\nimport Operon.Model.Innate\nimport Operon.Model.RateConc\n"
             "/- GENERATED by harness/vf/extract/py2lean_gates.py from operon_ai/organelles/membrane.py and\n"
             "   operon_ai/surveillance/innate.py on every run of ./check C10; do not edit.  Each definition is the\n"
